@@ -673,13 +673,14 @@ func scanDisk(root string, outputs int, gen int) (out []Delivered, files map[str
 
 // Hooks lets a property customise a run.
 type Hooks struct {
-	Reloadable bool
-	Timeouts   *Timeouts
-	OnAgent    func(gen int, a *Agent)                         // after start
-	BeforeStop func(gen int, a *Agent, ups []*upstream.Server) // right before the stop request
-	AfterStop  func(gen int)                                   // right after the stop has returned
-	Watchdog   time.Duration
-	OnStuck    func(gen int, where string)
+	Reloadable  bool
+	Timeouts    *Timeouts
+	OnAgent     func(gen int, a *Agent)                         // after start
+	BeforeStop  func(gen int, a *Agent, ups []*upstream.Server) // right before the stop request
+	AfterStop   func(gen int)                                   // right after the stop has returned
+	BeforeStart func(gen int)                                   // before the generation's agent is started (after the previous one was observed)
+	Watchdog    time.Duration
+	OnStuck     func(gen int, where string)
 	// ProcessLevel runs every generation as its own OS process through run.Run, stopped with SIGTERM (see procagent.go).
 	// Metrics of a generation are then the last scrape of the agent's own metric listener before the stop request.
 	ProcessLevel bool
@@ -789,6 +790,9 @@ func Run(sc Scenario, work string, hk Hooks) (*Obs, error) {
 			} else {
 				u.SetScript(nil)
 			}
+		}
+		if hk.BeforeStart != nil {
+			hk.BeforeStart(gi)
 		}
 		var a *Agent
 		var err error
